@@ -2,6 +2,11 @@
   C06 (report part) – "the textual failure report is always a string, naming every failing path
   when there are failures".
 
+  No theorem mentions a literal text: every piece of wording is a constant of the generated
+  `ValidaGen.ReportFmt` (regenerated from the Python source on every run) and the proofs treat those
+  constants as opaque strings, so a reworded message flows through. The only facts about the generated
+  values are the guards `C06_report_skip_rows`.
+
   The report is `Valida.Report.report ρ κ rules v` for ANY two `repr` functions `ρ` (values and
   concrete paths) and `κ` (a single condition): the theorems do not depend on what `repr` prints.
   (The correspondence check runs it with the `repr` of `Valida.Repr` against
@@ -14,7 +19,7 @@ import ValidaProofs.C05
 import ValidaProofs.C06
 import ValidaProofs.Lemmas.C06Report
 namespace ValidaProofs
-open Valida ValidaGen Valida.Report
+open Valida ValidaGen Valida.Report ValidaGen.ReportFmt
 open C06R
 
 /-- `piece` occurs in `s` -/
@@ -29,18 +34,21 @@ theorem C06_report_total (ρ : PyVal → String) (κ : Leaf Arg → String) (rs 
   obtain ⟨texts, ht, _⟩ := allTexts_spec κ rs v.tests (validate_tested rs doc v h)
   exact ⟨reportWith ρ v rs.length texts, by simp [report, ht, bind, Except.bind, pure, Except.pure]⟩
 
-/-- A valid document: the report is the one line saying so, with the tested count. -/
+/-- A valid document: the report is the one line saying so, with the tested count
+    (`"Data is valid. {tested}/{rules} rules were tested.\n"` in the current wording). -/
 theorem C06_report_valid (ρ : PyVal → String) (κ : Leaf Arg → String) (rs : List RuleM) (v : Validated) (s : String)
     (hs : report ρ κ rs v = .ok s) (hv : v.isValid = true) :
-    s = "Data is valid. " ++ toString v.numRulesTested ++ "/" ++ toString rs.length ++ " rules were tested.\n" := by
+    s = repOutInit ++ validPrefix ++ toString v.numRulesTested ++ testedSep ++ toString rs.length ++
+          testedSuffix ++ validSuffix := by
   obtain ⟨texts, _, rfl⟩ := report_eq ρ κ rs v s hs
   exact reportWith_valid ρ v _ texts hv
 
 /-- An invalid document: the report starts with the failure count and the tested count. -/
 theorem C06_report_header (ρ : PyVal → String) (κ : Leaf Arg → String) (rs : List RuleM) (v : Validated) (s : String)
     (hs : report ρ κ rs v = .ok s) (hv : v.isValid = false) :
-    ∃ rest, s = toString v.numFailures ++ " rule" ++ (if v.numFailures > 1 then "s" else "") ++
-      " failed validation. " ++ toString v.numRulesTested ++ "/" ++ toString rs.length ++ " rules were tested.\n\n" ++ rest := by
+    ∃ rest, s = repOutInit ++ toString v.numFailures ++ headerRule ++
+      (if v.numFailures > 1 then headerPlural else headerSingular) ++ headerFailed ++
+      toString v.numRulesTested ++ testedSep ++ toString rs.length ++ testedSuffix ++ headerSuffix ++ rest := by
   obtain ⟨texts, _, rfl⟩ := report_eq ρ κ rs v s hs
   exact ⟨_, reportWith_invalid ρ v _ texts hv⟩
 
@@ -50,7 +58,7 @@ theorem C06_report_names_every_failing_path (ρ : PyVal → String) (κ : Leaf A
     (doc : PyVal) (v : Validated) (s : String)
     (h : validate rs doc = .ok v) (hs : report ρ κ rs v = .ok s) :
     ∀ t ∈ v.tests, ∀ f ∈ t.failures,
-      Mentions s ("Path: " ++ ρ f.path ++ "\nValue: " ++ ρ f.value ++ "\nReasons:\n") := by
+      Mentions s (failPathPrefix ++ ρ f.path ++ failValuePrefix ++ ρ f.value ++ failReasonsHeader) := by
   intro t ht f hf
   have hT := validate_tested rs doc v h
   obtain ⟨i, hi⟩ := List.getElem?_of_mem ht
@@ -71,17 +79,31 @@ theorem C06_report_sections (ρ : PyVal → String) (κ : Leaf Arg → String) (
     (doc : PyVal) (v : Validated) (s : String)
     (h : validate rs doc = .ok v) (hs : report ρ κ rs v = .ok s) (i : Nat) (t : RuleTestR)
     (ht : v.tests[i]? = some t) (hinv : t.isValid = false) :
-    Mentions s ("Rule #" ++ toString (i + 1) ++ "\n") := by
+    Mentions s (sectionPrefix ++ toString (i + 1) ++ sectionTitleEnd) := by
   obtain ⟨x, _, hsec⟩ := report_section ρ κ rs v s (validate_tested rs doc v h) hs i t ht hinv
   exact hsec.trans (section_head ρ (i + 1) t x hinv)
 
+/-- Guards on the generated skip rows (`if cnd_name in ("and", "or"): continue`): the rows of `and` and
+    `or` nodes are skipped, the row of an `xor` node is not. These unfold the generated constants on
+    purpose: they are the obligations that break if the source's skip list changes. -/
+theorem C06_report_skip_rows :
+    skipped BinOp.and.symbol = true ∧ skipped BinOp.or.symbol = true ∧ skipped BinOp.xor.symbol = false := by
+  decide
+
+-- STATEMENT CHANGED: new hypothesis `hκ`. The model now follows the source's skip rule
+-- (`if cnd_name in ("and", "or"): continue`) by NAME, which also drops the row of a single condition
+-- whose `repr` is literally "and"/"or". Counterexample without `hκ`: `κ := fun _ => skipRowA`, a rule whose
+-- condition is one leaf and a document with a failing node: `f.reasons = [.cFalse]` but the texts of that
+-- failure are `[]` (length 0 ≠ 1, and empty). A real `repr` of a condition (`Cls.fn(args…)`) is never one
+-- of the two skipped names.
 /-- The reason lines of a failure: one text per recorded reason kind, and at least one. -/
-theorem C06_report_reasons (κ : Leaf Arg → String) (r : RuleM) (doc : PyVal) (t : RuleTestR)
+theorem C06_report_reasons (κ : Leaf Arg → String) (hκ : ∀ l, skipped (κ l) = false)
+    (r : RuleM) (doc : PyVal) (t : RuleTestR)
     (h : ruleTestOn r doc = .ok t) :
     ∃ texts, reasonTextsOf κ r t = .ok texts ∧ texts.length = t.failures.length ∧
       ∀ (i : Nat) (f : Failure) (x : List String), t.failures[i]? = some f → texts[i]? = some x →
         x.length = f.reasons.length ∧ x ≠ [] := by
-  exact reasonTextsOf_spec κ r t ⟨doc, h⟩
+  exact reasonTextsOf_spec κ hκ C06_report_skip_rows r t ⟨doc, h⟩
 
 /-! ### non-vacuity: a concrete schema of two rules (one passing, one failing) and its report -/
 
@@ -102,18 +124,33 @@ def reportIs (r : Except Exc String) (expected : String) : Bool :=
   | .ok s => s.toList == expected.toList
   | .error _ => false
 
-/-- the validation returns and the report, with constant `repr`s, is literally this text -/
+/-- the expected text of the report of `c06rSchema` on `c06rDoc`, assembled from the generated
+    constants: one failed rule, two of two tested, the section of rule #2 with its one failure
+    (path `p`, value `x`, one "returned False" reason naming the condition `k`) -/
+def c06rExpected (p x k : String) : String :=
+  repOutInit ++ "1" ++ headerRule ++ headerSingular ++ headerFailed ++ "2" ++ testedSep ++ "2" ++ testedSuffix ++
+    headerSuffix ++
+    sectionPrefix ++ "2" ++ sectionTitleEnd ++
+    String.join (List.replicate (sectionPrefix ++ "2").length underlineChar) ++ underlineEnd ++
+    ruleOutInit ++ failPathPrefix ++ p ++ failValuePrefix ++ x ++ failReasonsHeader ++
+    reasonPrefix ++ msgCFalse.1 ++ k ++ msgCFalse.2 ++ reasonSuffix ++
+    sectionEnd
+
+/-- the validation returns and the report, with constant `repr`s, is exactly that text -/
 example : reportIs (do let v ← validate c06rSchema c06rDoc; report (fun _ => "v") (fun _ => "k") c06rSchema v)
-    "1 rule failed validation. 2/2 rules were tested.\n\nRule #2\n-------\nPath: v\nValue: v\nReasons:\n Condition callable returned False: `k`.\n\n"
-    = true := by decide +kernel
+    (c06rExpected "v" "v" "k") = true := by decide +kernel
+
+/-- the constant `κ` satisfies the hypothesis of `C06_report_reasons` -/
+example : ∀ l : Leaf Arg, skipped ((fun _ => "k") l) = false := by
+  have h : skipped "k" = false := by decide
+  exact fun _ => h
 
 /-- the `repr`s of `Valida.Repr` (those the correspondence check runs) -/
 def c06rρ (v : PyVal) : String := match Repr.pyRepr v with | .ok s => s | .error _ => "?"
 def c06rκ (l : Leaf Arg) : String := match Repr.leafRepr l with | .ok s => s | .error _ => "?"
 
 example : reportIs (do let v ← validate c06rSchema c06rDoc; report c06rρ c06rκ c06rSchema v)
-    "1 rule failed validation. 2/2 rules were tested.\n\nRule #2\n-------\nPath: ('b',)\nValue: 2\nReasons:\n Condition callable returned False: `Value.equal_to(value=1)`.\n\n"
-    = true := by decide +kernel
+    (c06rExpected "('b',)" "2" "Value.equal_to(value=1)") = true := by decide +kernel
 
 /-- the validation is not valid, has two tests, and the second one carries the one failure -/
 example : (match validate c06rSchema c06rDoc with
